@@ -110,6 +110,8 @@ EmptyContent(solver) ==
    \* subsystem (reactions); 0 = the default the driver creates objects with
    attr |-> [x \in AllIds |-> DefAttr(x)],
    xcols |-> {}, xrows |-> {}, solver |-> solver,
+   \* model.compartments: name token of compartment 1 ("c"), 2 ("e"), 3 ("p"); 0 = no name
+   cname |-> [c \in 1..3 |-> 0],
    tol |-> 7]          \* model.tolerance = 10^-tol (Configuration().tolerance = 1e-7)
 NoModel == [none |-> TRUE]
 \* an expected attribute value the specification does not determine (not compared with the observation)
@@ -422,6 +424,8 @@ A_SetAttr(C, x, field, v) ==
   ELSE IF field = "subsys" /\ x \notin C.rxns THEN FailLoose(C, "skip")
   ELSE IF field = "comp" /\ (x \notin {"m1", "m2"} \/ x \notin C.mets \/ v \notin {1, 3}) THEN FailLoose(C, "skip")
   ELSE Ok([C EXCEPT !.attr[x] = [@ EXCEPT ![field] = v]])
+\* model.compartments = {compartment: name}: updates the names of the compartments given
+A_SetCompName(C, c, v) == Ok([C EXCEPT !.cname[c] = v])
 A_Annotate(C, x, v, via) ==     \* via 0: annotation[k] = v; 1: annotation = {...}; 2: notes[k] = v as well
   IF x \notin (C.rxns \cup C.mets \cup C.genes \cup {"MODEL"}) THEN FailLoose(C, "skip")
   ELSE Ok([C EXCEPT !.ann[x] = v, !.note[x] = IF via = 2 THEN v ELSE @])
@@ -438,6 +442,8 @@ A_RoundTrip(C, fmt) ==
   LET fam == FmtFamily(fmt) IN
   IF fam = "pickle" THEN Ok(C)
   ELSE Ok([C EXCEPT !.solver = "glpk", !.xcols = {}, !.xrows = {}, !.tol = 7,
+                    \* the documents list the compartments that hold a metabolite (model.compartments)
+                    !.cname = [c \in 1..3 |-> IF \E m \in C.mets : C.attr[m].comp \in {c, Wild} THEN C.cname[c] ELSE 0],
                     !.func = [g \in GeneU |-> TRUE],
                     !.groups = IF fam = "sbml" THEN @ ELSE {},
                     \* subsystems are not among what C10 lists for SBML (Wild = not compared)
@@ -469,6 +475,48 @@ Departed(St, s, C2) ==
                  ELSE St.det[s][r]]
 Lift(St, s, r) == SRes([St EXCEPT !.m[s] = r.c, !.det[s] = Departed(St, s, r.c)], r.raises, r.atomic, r.ret)
 Skip(St) == SRes(St, "skip", FALSE, NoRet)
+
+
+\* cobra.manipulation.add_SBO(model): exchanges / demands named after their single metabolite get their SBO term
+\* (reactions that carry a term already are left alone)
+A_AddSBO(C) ==
+  Ok([C EXCEPT !.sbo = [r \in RxU |->
+        IF r \in C.rxns /\ C.sbo[r] = "none" /\ Cardinality(MetsOfRxn(C, r)) = 1
+        THEN (IF r = "EX_m3" /\ MetsOfRxn(C, r) = {"m3"} THEN "exchange"
+              ELSE IF r = "EX_m4" /\ MetsOfRxn(C, r) = {"m4"} THEN "exchange"
+              ELSE IF r = "DM_m1" /\ MetsOfRxn(C, r) = {"m1"} THEN "demand" ELSE "none")
+        ELSE C.sbo[r]]])
+
+\* ------------------------------------------------------------------ read-only views (action Query)
+\* reaction.reversibility / boundary / reactants / products / compartments / check_mass_balance,
+\* model.boundary / exchanges / demands / sinks (medium/boundary_types.py: the SBO term dominates, then the
+\* compartment, the identifier and the reversibility decide)
+Rev(C, r) == C.lb[r] < 0 /\ C.ub[r] > 0
+CompsOfRxn(C, r) == {C.attr[m].comp : m \in MetsOfRxn(C, r)}
+ExcludedFor(type, r) ==
+  CASE type = "demand" -> r \in {"SK_m2", "EX_m3", "EX_m4"}
+    [] type = "sink"   -> r \in {"DM_m1", "EX_m3", "EX_m4"}
+    [] OTHER           -> r \in {"DM_m1", "SK_m2"}
+IsBoundaryType(C, r, type) ==
+  /\ \E b \in C.rxns : Boundary(C, b)
+  /\ \/ C.sbo[r] = type
+     \/ /\ C.sbo[r] = "none" /\ Boundary(C, r) /\ ~ExcludedFor(type, r)
+        /\ (IF type = "exchange" THEN 2 \in CompsOfRxn(C, r) ELSE 2 \notin CompsOfRxn(C, r))
+        /\ (type = "demand" => ~Rev(C, r)) /\ (type = "sink" => Rev(C, r))
+BoundaryTypeSet(C, type) == {r \in C.rxns : IsBoundaryType(C, r, type)}
+\* formulas behind the tokens: 1 C6H12O6, 2 H2O, 3 C10H12N5O13P3 (0: no formula); vector <<C, H, N, O, P>>
+ElemVec(f) == CASE f = 1 -> <<6, 12, 0, 6, 0>> [] f = 2 -> <<0, 2, 0, 1, 0>> [] f = 3 -> <<10, 12, 5, 13, 3>>
+                [] OTHER -> <<0, 0, 0, 0, 0>>
+RECURSIVE SumSeq(_)
+SumSeq(q) == IF q = <<>> THEN 0 ELSE Head(q) + SumSeq(Tail(q))
+\* reaction.check_mass_balance(): <<C, H, N, O, P, charge>> of the imbalance (a metabolite without charge adds none)
+MassBal(C, r) ==
+  [k \in 1..6 |-> SumSeq([i \in 1..Len(MetSeq) |->
+       LET m == MetSeq[i] IN
+       C.S[r][m] * (IF k <= 5 THEN ElemVec(C.attr[m].formula)[k]
+                    ELSE IF C.attr[m].charge = 99 THEN 0 ELSE C.attr[m].charge)])]
+\* (attributes of metabolites that came back with a re-added detached reaction are not determined: no verdict then)
+QueryDecidable(C) == \A m \in C.mets : C.attr[m].comp # Wild /\ C.attr[m].formula # Wild /\ C.attr[m].charge # Wild
 
 ContentOp(op, C) ==
   CASE op.a = "AddMetabolites"     -> A_AddMetabolites(C, op.ms)
@@ -523,7 +571,9 @@ ContentOp(op, C) ==
     [] op.a = "SetFunctional"      -> A_SetFunctional(C, op.g, op.b)
     [] op.a = "Repair"             -> Ok(C)
     [] op.a = "RxnArith"           -> IF op.r \in C.rxns /\ op.q \in C.rxns THEN Ok(C) ELSE FailLoose(C, "skip")
-    [] op.a \in {"Analyze", "Init"} -> Ok(C)     \* stuttering steps on the content
+    [] op.a = "AddSBO"             -> A_AddSBO(C)
+    [] op.a = "SetCompName"        -> A_SetCompName(C, op.c, op.v)
+    [] op.a \in {"Analyze", "Init", "Query"} -> Ok(C)     \* stuttering steps on the content
     [] OTHER                       -> FailLoose(C, "unknown-op")
 
 ContentActions == {"AddMetabolites", "RemoveMetabolites", "AddReactions", "RemoveReactions", "AddBoundary",
@@ -531,9 +581,9 @@ ContentActions == {"AddMetabolites", "RemoveMetabolites", "AddReactions", "Remov
                    "SetBounds", "RxnKnockOut", "SetRule", "GeneKnockOut", "KnockOutModelGenes", "RemoveGenes",
                    "RenameGene", "RenameReaction", "RenameMetabolite", "SetObjective", "SetObjCoef", "SetDirection",
                    "SetMedium", "SwitchSolver", "SetTolerance", "AddUserCons", "AddUserVar", "RemoveUserCons", "RemoveUserVar",
-                   "AddGroup", "RemoveGroup", "GroupAddMembers", "GroupRemoveMembers", "Annotate", "SetAttr", "Analyze", "RoundTrip", "GetMedium", "Init", "DetachedSetBounds", "RxnArith", "BuildFromString", "SetFunctional", "Repair", "FixObjective"}
+                   "AddGroup", "RemoveGroup", "GroupAddMembers", "GroupRemoveMembers", "Annotate", "SetAttr", "Analyze", "RoundTrip", "GetMedium", "Init", "DetachedSetBounds", "RxnArith", "BuildFromString", "SetFunctional", "Repair", "FixObjective", "AddSBO", "Query", "SetCompName"}
 \* operations that the documentation does NOT declare reversible inside `with model:`
-NotContextAware == {"AddGroup", "RemoveGroup", "GroupAddMembers", "GroupRemoveMembers", "Annotate", "SetAttr", "RenameReaction", "RenameMetabolite", "DetachedSetBounds",
+NotContextAware == {"AddSBO", "SetCompName", "AddGroup", "RemoveGroup", "GroupAddMembers", "GroupRemoveMembers", "Annotate", "SetAttr", "RenameReaction", "RenameMetabolite", "DetachedSetBounds",
                     "SetTolerance"}
 
 \* left.merge(right, inplace=True, objective="left"): the reactions of right whose ids are new to left are added
@@ -594,6 +644,19 @@ Apply(op, St) ==
           SRes([St EXCEPT !.m[op.t] = r.c, !.ctx[op.t] = <<>>, !.helper[op.t] = 0, !.sw[op.t] = St.sw[s], !.taint[op.t] = FALSE,
                           !.det[op.t] = [x \in RxU |-> NoDet]],
                "none", TRUE, NoRet)
+  \* pruned, removed = prune_unused_metabolites(m[s]) / prune_unused_reactions(m[s]): a COPY of the model without the
+  \* metabolites that take part in no reaction / the reactions without metabolites; the model itself is unchanged.
+  \* The copy goes to slot t.
+  ELSE IF op.a = "Prune" THEN
+     IF ~IsModel(St.m[s]) \/ op.t = s \/ St.helper[s] # 0 THEN Skip(St)
+     ELSE LET C == St.m[s]
+              gone == IF op.kind = "mets" THEN {m \in C.mets : RxnsOfMet(C, m) = {}}
+                      ELSE {r \in C.rxns : MetsOfRxn(C, r) = {}}
+              P == IF op.kind = "mets" THEN Canon([C EXCEPT !.mets = @ \ gone])
+                   ELSE RemoveRxns(C, SelectSeq(RxSeq, LAMBDA r : r \in gone), FALSE) IN
+          SRes([St EXCEPT !.m[op.t] = P, !.ctx[op.t] = <<>>, !.helper[op.t] = 0, !.sw[op.t] = St.sw[s], !.taint[op.t] = FALSE,
+                          !.det[op.t] = [x \in RxU |-> NoDet]],
+               "none", TRUE, [ids |-> gone, n |-> 0])
   ELSE IF op.a = "NewModel" THEN
      SRes([St EXCEPT !.m[s] = EmptyContent(op.solver), !.ctx[s] = <<>>, !.helper[s] = 0, !.sw[s] = FALSE, !.taint[s] = FALSE,
                      !.det[s] = [r \in RxU |-> NoDet]],
